@@ -733,9 +733,41 @@ def rule_distinct(repo, tier):
     return res
 
 
+@guarded
+def rule_vdim(repo, tier):
+    """The voxel list has one size per COORDINATE column; the remaining columns of the cloud are feature channels that are averaged, not quantised.  The number of
+    coordinate columns is therefore the length of the list as the caller gave it.  A list that is broadcast / expanded / repeated first ("a single number means
+    cubic voxels") loses that information: the one-element list [v] on a cloud with feature channels quantises the features too."""
+    res = RuleResult('C18.VDIM', 'voxel_filter takes the number of coordinate columns from the length of the voxel argument as given: the argument is not expanded, repeated '
+                     'or broadcast before its length is read', floor=1)
+    f = repo.func(GEO, 'voxel_filter')
+    vname = f.pos_params[1]
+    lens = [n for n in ast.walk(f.node) if isinstance(n, ast.Call) and ((dotted(n.func) == 'len' and n.args and dotted(n.args[0]) == vname) or
+                                                                         (isinstance(n.func, ast.Attribute) and n.func.attr in ('numel', 'size', '__len__') and dotted(n.func.value) == vname))]
+    if not lens:
+        raise AnalysisError('C18.VDIM: voxel_filter no longer reads the length of its voxel argument')
+    # the read that DEFINES the number of coordinate columns is the one bound to a name (vdim = len(voxel)); a read inside a test (`if voxel.numel() == 1`) decides
+    # nothing about the columns
+    bound = [a.lineno for a in ast.walk(f.node) if isinstance(a, ast.Assign) and any(any(x is n_ for x in ast.walk(a.value)) for n_ in lens)]
+    first = min(bound) if bound else max(n.lineno for n in lens)
+    grown = []
+    for a in ast.walk(f.node):
+        if isinstance(a, ast.Assign) and a.lineno <= first and any(isinstance(t, ast.Name) and t.id == vname for t in a.targets):
+            if any(isinstance(c, ast.Call) and (dotted(c.func) or (c.func.attr if isinstance(c.func, ast.Attribute) else '')).split('.')[-1] in
+                   ('expand', 'repeat', 'broadcast_to', 'expand_as', 'tile', 'full', 'repeat_interleave') for c in ast.walk(a.value)) or \
+                    any(isinstance(b, ast.BinOp) and isinstance(b.op, ast.Mult) and isinstance(b.left, (ast.List, ast.Tuple)) for b in ast.walk(a.value)):
+                grown.append(a)
+    res.inst({'function': f.fq, 'length read at': src(lens[0])[:40], 'argument grown before that': [src(a)[:50] for a in grown]}, f.fq)
+    for a in grown:
+        res.add(Finding('C18.VDIM', f, '`%s` widens the voxel argument before its length is read: the number of coordinate columns becomes the width of the cloud, and for a '
+                        'one-element list the feature channels are quantised as well - one occupied voxel splits into several rows' % src(a)[:60], node=a,
+                        construct='voxel argument grown before its length is read'))
+    return res
+
+
 def rules(repo, tier):
     from ..optional import rule_optional
     from ..mode import mode_rules
     from ..callsig import rule_callsig
     from ..docsig import rule_docsig
-    return [rule_distinct(repo, tier), rule_idx(repo, tier), rule_sign(repo, tier), rule_fwd(repo, tier), rule_memo18(repo, tier), rule_self(repo, tier), rule_rankidx(repo, tier), rule_count(repo, tier), rule_errnorm(repo, tier), rule_kentries(repo, tier), rule_unit18(repo, tier), rule_ordflow(repo, tier), rule_optional(repo, 'C18.OPT', ['pypose.function.geometry'])] + mode_rules(repo, 'C18', ['pypose.function.geometry']) + [rule_callsig(repo, 'C18.SIG', ['pypose.function.geometry']), rule_docsig(repo, 'C18.DOC', ['pypose.function.geometry'])]
+    return [rule_distinct(repo, tier), rule_vdim(repo, tier), rule_idx(repo, tier), rule_sign(repo, tier), rule_fwd(repo, tier), rule_memo18(repo, tier), rule_self(repo, tier), rule_rankidx(repo, tier), rule_count(repo, tier), rule_errnorm(repo, tier), rule_kentries(repo, tier), rule_unit18(repo, tier), rule_ordflow(repo, tier), rule_optional(repo, 'C18.OPT', ['pypose.function.geometry'])] + mode_rules(repo, 'C18', ['pypose.function.geometry']) + [rule_callsig(repo, 'C18.SIG', ['pypose.function.geometry']), rule_docsig(repo, 'C18.DOC', ['pypose.function.geometry'])]
